@@ -32,11 +32,19 @@ func genC13Overlap(t *rapid.T) *Case {
 	spec := &Spec{Base: "New"}
 	res := []int{0, 1, 2, 4, 7} // ^my-  -y$  ^x-  .*  tag
 	hostProps := []string{"color", "text-align", "width"}
-	n := rapid.IntRange(2, 6).Draw(t, "nov")
+	n := rapid.IntRange(2, 12).Draw(t, "nov")
+	hotRe, hotProp := rapid.SampledFrom(res).Draw(t, "hotre"), rapid.SampledFrom(hostProps).Draw(t, "hotprop")
 	for i := 0; i < n; i++ {
 		re := rapid.SampledFrom(res).Draw(t, "ovre")
+		hot := rapid.IntRange(0, 2).Draw(t, "hot") != 0
+		if hot {
+			re = hotRe
+		}
 		if rapid.Bool().Draw(t, "ovstyle") {
 			op := Op{Kind: "AllowStyles", Attrs: []string{rapid.SampledFrom(hostProps).Draw(t, "ovprop")}, Scope: "elre", ElRe: re, ValRe: -1}
+			if hot {
+				op.Attrs = []string{hotProp}
+			}
 			switch rapid.IntRange(0, 2).Draw(t, "ovmatch") {
 			case 0:
 				op.Match, op.Enum = "enum", rapid.IntRange(0, len(styleEnumPool)-1).Draw(t, "ovenum")
@@ -66,6 +74,9 @@ func genC13Overlap(t *rapid.T) *Case {
 			ds = append(ds, rapid.SampledFrom(hostProps).Draw(t, "ovp")+": "+rapid.SampledFrom(vals).Draw(t, "ovv"))
 		}
 		in := "<" + el + ` id="i" style="` + strings.Join(ds, "; ") + `" title="` + rapid.SampledFrom(vals).Draw(t, "ovt") + `" class="` + rapid.SampledFrom(vals).Draw(t, "ovc") + `">t</` + el + ">"
+		if rapid.IntRange(0, 9).Draw(t, "ovbig") == 0 {
+			in += strings.Repeat("filler text "+itoa(i)+" ", 400) // > 4 KiB: large-buffer paths
+		}
 		c.Inputs = append(c.Inputs, BStr(in))
 	}
 	return c
@@ -80,7 +91,11 @@ func genC13(t *rapid.T) *Case {
 	n := rapid.IntRange(8, 16).Draw(t, "ninputs")
 	c := &Case{Spec: spec}
 	for i := 0; i < n; i++ {
-		c.Inputs = append(c.Inputs, BStr(genSoup(t, m, &soupOpts{maxFrags: 8, els: []string{"my-x", "x-a-y", "span", "h1"}, attrs: []string{"style", "href", "src"}})))
+		in := genSoup(t, m, &soupOpts{maxFrags: 8, els: []string{"my-x", "x-a-y", "span", "h1"}, attrs: []string{"style", "href", "src"}})
+		if rapid.IntRange(0, 9).Draw(t, "big") == 0 {
+			in += strings.Repeat("<b>filler "+itoa(i)+"</b> text ", 300) // > 4 KiB
+		}
+		c.Inputs = append(c.Inputs, BStr(in))
 	}
 	return c
 }
@@ -130,9 +145,17 @@ func checkC13(c *Case, r *Rec) error {
 		wg.Add(1)
 		go func(g int) {
 			defer wg.Done()
+			var heldBytes []byte
+			var heldBuf *bytes.Buffer
+			heldFor := -1
 			for k := 0; k < n; k++ {
 				i := (k + g) % n // different goroutines work on different inputs at the same time
 				got := allEntryPoints(p, string(c.Inputs[i]))
+				// results kept by the caller from the previous round must still be intact
+				if heldFor >= 0 && errs[g] == nil && (string(heldBytes) != base[heldFor][1] || heldBuf.String() != base[heldFor][2]) {
+					errs[g] = violation(string(heldBytes), "C13: a result kept by the caller (SanitizeBytes %s / SanitizeReader %s) changed while other calls ran; expected %s", q(trunc(string(heldBytes), 120)), q(trunc(heldBuf.String(), 120)), q(trunc(base[heldFor][1], 120)))
+				}
+				heldBytes, heldBuf, heldFor = p.SanitizeBytes([]byte(c.Inputs[i])), p.SanitizeReader(bytes.NewReader([]byte(c.Inputs[i]))), i
 				if got != base[i] && errs[g] == nil {
 					for e := 0; e < 4; e++ {
 						if got[e] != base[i][e] {
